@@ -34,7 +34,13 @@
 /* not under loop contract (bounded unwinding where used) */
 #define HWLOC_VERIF_LOOP_hwloc__type_match_1
 #define HWLOC_VERIF_LOOP_hwloc__osdev_types_sscanf_1
-#ifndef HWLOC_VERIF_LOOP_hwloc_obj_attr_snprintf_1
-#define HWLOC_VERIF_LOOP_hwloc_obj_attr_snprintf_1
-#endif
+/* hwloc_obj_attr_snprintf: the info loop appends "prefix name=value" pieces through the cursor */
+#define HWLOC_VERIF_LOOP_hwloc_obj_attr_snprintf_1 \
+  LA(i, res, ret, tmp, tmplen, prefix, verif_snprintf_sum, verif_snprintf_neg, verif_last_nul, verif_snprintf_calls, verif_arena) \
+  LI(i <= obj->infos.count) \
+  CURSOR_INV(string, size, tmp, tmplen) \
+  LI(!verif_snprintf_neg && ret >= 0 && (long)ret == verif_snprintf_sum && ret <= (int)(i + 3) * PIECE_MAX) \
+  LI((size) == 0 || string[0] == 0 || (verif_last_nul < (size) && string[verif_last_nul] == 0)) \
+  LI(VERIF_FRAME_OK) \
+  LD(obj->infos.count - i)
 #endif
